@@ -47,6 +47,53 @@ CHECKS["C04"] = _core("C04", "seeded programs with try/catch/finally nests and f
                       "Known finding F28 (finally skipped on abrupt exits) is modelled as a named deviation rule and "
                       "its pinned inputs are reported as KNOWN-FINDING.")
 
+CHECKS["C04"]["text"] += (" In addition the hook traces of these executions are validated against the VM specification "
+                          "spec/KotoVm.tla (CaughtIsInnermost, CaughtWithinTry, NoDuplicateTry, BuildersRestoredAtCatch, "
+                          "NoMonotoneGrowth, Balanced, QuiescentIsClean, NoInternalFault evaluated at every event).")
+CHECKS["C04"]["technique"] = "TLA+ abstract machine as oracle (spec->impl replay) + trace validation of VM hook events against KotoVm.tla"
+
+CHECKS["C07"] = dict(
+    category="model_checking",
+    text="Session.tla specifies one embedding instance as a state machine over its completed effects; TLC enumerates every "
+         "history of 3 (quick) / 4 (thorough) operations over a 27-operation library (succeeding and failing scripts with "
+         "the fault at every depth class, host-initiated calls, displays, timeouts) and predicts each step. The histories "
+         "are replayed on a real koto::Koto instance; after every step the exported state and the VM's residue are "
+         "observed, and the hook events are validated against KotoVm.tla (Balanced at every activation exit on Ok and Err, "
+         "QuiescentIsClean whenever the host regains control).",
+    design_ref="DESIGN.md §5 C07, Appendix A",
+    note="Trusted: the hand transcription of the script library's effects into Session.tla; hooks placement (self-tested). "
+         "Histories of bounded length over a fixed library.",
+    technique="TLC-enumerated histories replayed on the implementation + trace validation against KotoVm.tla",
+    engine="session")
+CHECKS["C08"] = dict(
+    category="model_checking",
+    text="Every non-terminating shape (6 spinning constructs x 8 positions incl. overloaded operator, generator body, "
+         "adaptor functor, @display x try depth 0..2) is run under a limit on a real instance: timeout error within "
+         "2*limit+1s, no catch block observes it, the instance stays usable and clean. Each run's hook trace is validated "
+         "against KotoVm.tla: TimeoutNeverCaught and TimeoutStaysTimeout (a timeout from a nested execution is never "
+         "downgraded), Balanced, QuiescentIsClean.",
+    design_ref="DESIGN.md §5 C08, Appendix A",
+    note="Real time is outside TLA+ (harness assertion with slack); long executions are recorded as head+tail with a Gap "
+         "event, for which the specification abstains on what it cannot know.",
+    technique="enumerated runaway shapes on the implementation + trace validation against KotoVm.tla",
+    engine="kotovm")
+CHECKS["C10"] = dict(
+    category="model_checking",
+    text="Blocks.tla models block-structured text typed line by line (open-construct stack, header/continuation lines); "
+         "TLC enumerates every reachable typed prefix within MaxLines/MaxDepth and predicts NeedsMore / Complete; each "
+         "prefix is rendered and compiled (indentation error iff NeedsMore; complete programs compile). Meaning under "
+         "layout: KotoCore programs of all families are rendered under many layout vectors (inline/block forms, paren-free "
+         "and piped calls, minimal/redundant parentheses, comments, blank lines, trailing whitespace) and must all yield "
+         "the machine's single prediction; decorated variants must parse to the identical syntax tree.",
+    design_ref="DESIGN.md §5 C10",
+    note="Only freedoms the guide documents are used; the REPL is represented by compile + is_indentation_error.",
+    technique="TLC enumeration of typed prefixes (Blocks.tla) + layout-variant replay against the KotoCore oracle",
+    engine="blocks")
+CHECKS["C12"] = _core("C12", "programs with one fault planted under 0..4 nested calls after line-shifting constructs; the "
+                      "machine reports the failing node and the call-site nodes, which are mapped to source lines and "
+                      "compared with the error's trace and with the lines quoted in the rendered message",
+                      "DESIGN.md §5 C12", "Compile-error positions are checked in C10's block-prefix part.")
+
 NOT_APPLICABLE = {
     "C20": "Codec fidelity of JSON/YAML/TOML text and two serde visitors: no state machine, and the value domain that "
            "matters (string escapes, full i64 range, float text) is outside what TLC can represent; a TLA+ model would "
@@ -88,11 +135,17 @@ def main():
             "guard": "--cfg koto_verif",
             "enable": "rustflags in /verif/harness/.cargo/config.toml (--cfg koto_verif); the harness has path dependencies on /repo/crates/*",
             "baseline_off_cmd": BASELINE_OFF,
-            "source_commits": [],
+            "source_commits": ["28a8c73", "2bba42f", "2da0a96", "0e433f6"],
             "add_only": True,
         },
         "engines": [
-            {"name": "kotocore", "path": "spec/KotoCore.tla", "serves_properties": ["C01", "C02", "C03", "C04"],
+            {"name": "kotovm", "path": "spec/KotoVm.tla", "serves_properties": ["C04", "C07", "C08"],
+             "kind_free_text": "TLA+ specification of the VM's control state; hook events of real executions are folded through its actions (Trace_KotoVm.tla)"},
+            {"name": "session", "path": "spec/Session.tla", "serves_properties": ["C07"],
+             "kind_free_text": "TLA+ state machine of one embedding instance; TLC enumerates operation histories that are replayed on koto::Koto"},
+            {"name": "blocks", "path": "spec/Blocks.tla", "serves_properties": ["C10"],
+             "kind_free_text": "TLA+ model of block-structured text typed line by line; TLC enumerates typed prefixes"},
+            {"name": "kotocore", "path": "spec/KotoCore.tla", "serves_properties": ["C01", "C02", "C03", "C04", "C10", "C12"],
              "kind_free_text": "TLA+ abstract machine of the Koto language executed by TLC; predictions replayed into the implementation by harness/kv"},
         ],
         "checks": checks,
